@@ -297,3 +297,37 @@ func ZZ_C02_BlockChecks() {
 		zzsym.Cover("block-rejected")
 	}
 }
+
+// Oversize transactions are refused on every decode path: a transaction whose encoding is exactly
+// MAX_TX_SIZE bytes decodes, one byte more is rejected - also when the excess sits in the signature
+// section and the transaction is read from a shared source (block / p2p path), not only through
+// TransactionFromRawBytes.
+func ZZ_C02_TxSizeLimit() {
+	tx := zzSymTx("", 0)
+	sink := common.NewZeroCopySink(nil)
+	tx.SerializeUnsigned(sink)
+	unsignedLen := len(sink.Bytes())
+	// one signature entry: 1 blob + 1 key; overhead = varuint(1) + u16 + varbytes prefix(5) + u16 + (1+33) + u16
+	over := zzsym.Choose("over", 2)
+	overhead := 1 + 2 + 5 + 2 + 34 + 2
+	blob := make([]byte, MAX_TX_SIZE-unsignedLen-overhead+over)
+	blob[0] = zzsym.U8("blob0")
+	tx.Sigs = []Sig{{PubKeys: []keypair.PublicKey{zzKey(0)}, M: 1, SigData: [][]byte{blob}}}
+	full := common.NewZeroCopySink(nil)
+	if err := tx.Serialization(full); err != nil {
+		panic("zz: serialization")
+	}
+	raw := full.Bytes()
+	zzsym.Assert(len(raw) == MAX_TX_SIZE+over, "harness: encoding has the intended size")
+	_, e1 := TransactionFromRawBytes(raw)
+	t2 := &Transaction{}
+	e2 := t2.Deserialization(common.NewZeroCopySource(raw))
+	if over == 1 {
+		zzsym.Assert(e1 != nil, "TransactionFromRawBytes refuses an oversize transaction")
+		zzsym.Assert(e2 != nil, "Deserialization from a shared source refuses an oversize transaction")
+		zzsym.Cover("oversize")
+	} else {
+		zzsym.Assert(e1 == nil && e2 == nil, "a transaction of exactly the maximum size decodes")
+		zzsym.Cover("maxsize")
+	}
+}
